@@ -370,6 +370,7 @@ type Interp struct {
 	funcsEntered map[string]bool
 	frozenPre []*Obj
 	initSteps int64
+	curCallee *ssa.Function
 	spec      int
 	specBase  int
 	specSteps int
@@ -476,6 +477,7 @@ func (it *Interp) call(caller *frame, fv FuncV, args []Value) Value {
 		if it.spec > 0 && cf.effectful {
 			panic(specFail{"harness primitive"})
 		}
+		it.curCallee = fv.fn
 		return cf.intrinsic(it, caller, args)
 	}
 	if cf.blocks == nil {
@@ -490,6 +492,9 @@ func (it *Interp) call(caller *frame, fv FuncV, args []Value) Value {
 		}
 	}
 	fr := &frame{cf: cf, env: make([]Value, cf.nregs), caller: caller}
+	if debugCalls {
+		fmt.Fprintf(os.Stderr, "call %s args=%d env=%d nregs=%d params=%d free=%d\n", cf.name, len(args), len(fv.env), cf.nregs, len(fv.fn.Params), len(fv.fn.FreeVars))
+	}
 	n := copy(fr.env, args)
 	copy(fr.env[n:], fv.env)
 	it.depth++
@@ -713,7 +718,10 @@ func (it *Interp) execBlock(fr *frame, cb *cblock, skipPhis bool) (int, bool) {
 				fr.env[ci.dst] = Ptr{cell: cell, obj: s.obj}
 			}
 		case *ssa.Store:
-			p := it.get(fr, &ci.ops[0]).(Ptr)
+			p, isPtr := it.get(fr, &ci.ops[0]).(Ptr)
+			if !isPtr {
+				panic(fmt.Sprintf("store through %T in %s: %s (operand kind %d reg %d)", it.get(fr, &ci.ops[0]), fr.cf.name, ins, ci.ops[0].kind, ci.ops[0].reg))
+			}
 			it.store(fr, p, it.get(fr, &ci.ops[1]), ci.t)
 		case *ssa.TypeAssert:
 			fr.env[ci.dst] = it.typeAssert(fr, ins, ci.t, ci.t2, it.get(fr, &ci.ops[0]).(Iface))
@@ -791,9 +799,9 @@ func (it *Interp) prepareCall(fr *frame, ci *cinstr, c *ssa.CallCommon, info *ca
 		if fn == nil {
 			it.abort("unmodelled", fmt.Sprintf("no method %s for %s", info.method.Name(), recv.t.name))
 		}
-		args := make([]Value, len(ci.ops))
+		args := make([]Value, 1+len(c.Args))
 		args[0] = recv.v
-		for j := 1; j < len(ci.ops); j++ {
+		for j := 1; j < len(args); j++ {
 			args[j] = it.get(fr, &ci.ops[j])
 		}
 		return FuncV{fn: fn}, args
@@ -802,7 +810,7 @@ func (it *Interp) prepareCall(fr *frame, ci *cinstr, c *ssa.CallCommon, info *ca
 	if !ok {
 		panic(fmt.Sprintf("call of non-function %T at %s", it.get(fr, &ci.ops[0]), it.stackString(fr)))
 	}
-	args := make([]Value, len(ci.ops)-1)
+	args := make([]Value, len(c.Args)) // (a Defer has a trailing DeferStack operand)
 	for j := range args {
 		args[j] = it.get(fr, &ci.ops[j+1])
 	}
@@ -1086,3 +1094,5 @@ func (it *Interp) typeAssert(fr *frame, ins *ssa.TypeAssert, target, static *TIn
 	}
 	return v
 }
+
+var debugCalls = os.Getenv("GOSX_DEBUG_CALLS") != ""
